@@ -126,6 +126,18 @@ def check(prog, res, tier):
                 return it.sym_bytes('record', lo=1, hi=6000)
             all_runs.append((f'{cls}.{meth}', Runs(prog, entry_m, summaries={'iso8583.dumps': dsum}, res=res)))
 
+    try:
+        from .c18 import make_reader as make_param_reader, CLS as PCLS
+        pci = prog.cls(PCLS)
+        gfi = pci.lookup('_get_param_field')[1]
+
+        def entry_pr(it):
+            obj = make_param_reader(it, prog, SymV('expanded', 'bool') and it.choose(2, 'expanded') == 1)
+            rec = it.sym_bytes('record', lo=300)
+            return it.call_function(gfi, [rec, it.sym_str('field', lo=1)], {}, self_obj=obj)
+        all_runs.append((f'{PCLS}._get_param_field', Runs(prog, entry_pr, res=res)))
+    except AnalysisError:
+        pass
     for q in ('mciipm.vbs_list_to_bytes', 'mciipm.vbs_bytes_to_list'):
         if prog.has_func(q):
             cfi = prog.func(q)
